@@ -626,6 +626,8 @@ class World:
         if not any(is_sm_object(v) and hasattr(v, 'data')
                    for v in [inp['recv']] + list(inp['args']) + list(inp['kwargs'].values())):
             return 'skip'
+        if any(_malformed(v) for v in [inp['recv']] + list(inp['args']) + list(inp['kwargs'].values())):
+            return 'skip'       # an input has been driven into a malformed state since: not judged
         memo = {}
         twin = {'recv': self._rebuild(inp['recv'], memo),
                 'args': [self._rebuild(a, memo) for a in inp['args']],
